@@ -128,7 +128,7 @@ ValidMember(pn, ind) == (ind \in {"fnlocal", "fnimp"}) <=> (pn \in AllFnPosition
 DName(i) == CASE i = 1 -> "d1" [] i = 2 -> "d2" [] i = 3 -> "d3" [] OTHER -> "d4"
 PName(i) == CASE i = 1 -> "r1" [] i = 2 -> "r2" [] i = 3 -> "r3" [] OTHER -> "r4"
 
-RecKinds == {"obj", "arr", "alias", "cnt", "sum", "fn"}
+RecKinds == {"obj", "arr", "alias", "cnt", "sum", "fn", "rel"}
 \* a reference to declaration j: functions are applied, everything else is named
 RefTo(kinds, j) == IF kinds[j] = "fn" THEN App(Var(DName(j)), <<Prim("num")>>) ELSE Var(DName(j))
 
@@ -140,6 +140,11 @@ RecBody(kinds, kd, refs) ==
     [] kd = "cnt" -> Cnt(<<>>, IF refs = <<>> THEN <<>> ELSE <<rf(1)>>)
     [] kd = "sum" -> Op("|", <<IF Len(refs) >= 1 THEN rf(1) ELSE Prim("num"), IF Len(refs) >= 2 THEN rf(2) ELSE Prim("str")>>)
     [] kd = "fn" -> Obj(<<Prop("v", Var("x"))>> \o [j \in 1..Len(refs) |-> Prop(PName(j), rf(j))])
+    \* a relation whose transfer range is the referenced declarations themselves (bare, combined with ::)
+    [] kd = "rel" -> Rel(Uri(<<Seg("self")>>),
+                         <<Xfer("get", IF refs = <<>> THEN C0
+                                       ELSE IF Len(refs) = 1 THEN rf(1)
+                                       ELSE Op("::", [j \in 1..Len(refs) |-> rf(j)]))>>)
 
 ArityOK(kd, refs) ==
   CASE kd = "alias" -> Len(refs) = 1
@@ -153,7 +158,7 @@ AscSeqs(n) == {s \in UNION {[1..k -> 1..n] : k \in 0..n} : \A a, b \in DOMAIN s 
 RecProg(n, kinds, refs) ==
   LET decl(i) == IF kinds[i] = "fn" THEN Decl(DName(i), <<"x">>, RecBody(kinds, "fn", refs[i]))
                  ELSE Let(DName(i), RecBody(kinds, kinds[i], refs[i]))
-      use == IF kinds[1] = "cnt" THEN GetTo(Var("d1")) ELSE Body(RefTo(kinds, 1))
+      use == IF kinds[1] = "cnt" THEN GetTo(Var("d1")) ELSE IF kinds[1] = "rel" THEN Res(Var("d1")) ELSE Body(RefTo(kinds, 1))
   IN [main |-> "m1", mods |-> [m \in {"m1"} |-> [i \in 1..n |-> decl(i)] \o <<use>>]]
 
 RecGraphs(n) ==
@@ -174,6 +179,10 @@ RecInst(name) ==
     [] name = "top-twice" -> one(<<TRec, Body(Obj(<<Prop("a", Var("t")), Prop("b", Var("t"))>>))>>)
     [] name = "nested-fn" -> one(<<FRec, Decl("g", <<"y">>, Obj(<<Prop("w", App(Var("f"), <<Var("y")>>)), Prop("z", App(Var("f"), <<Var("y")>>))>>)),
                                    Body(Obj(<<Prop("a", App(Var("g"), <<Prim("num")>>)), Prop("b", App(Var("g"), <<Prim("str")>>))>>))>>)
+    [] name = "nested-fn-two-args" -> one(<<FRec, Decl("pair", <<"y", "z">>, Obj(<<Prop("one", App(Var("f"), <<Var("y")>>)), Prop("other", App(Var("f"), <<Var("z")>>))>>)),
+                                           Body(App(Var("pair"), <<Prim("int"), Prim("str")>>))>>)
+    [] name = "nested-fn-twice-two-args" -> one(<<FRec, Decl("pair", <<"y", "z">>, Obj(<<Prop("one", App(Var("f"), <<Var("y")>>)), Prop("other", App(Var("f"), <<Var("z")>>))>>)),
+                                                 Body(Obj(<<Prop("p", App(Var("pair"), <<Prim("int"), Prim("str")>>)), Prop("q", App(Var("pair"), <<Prim("bool"), Obj(<<>>)>>))>>))>>)
     [] name = "rec-in-rec" -> one(<<Let("t", Rec("a", Obj(<<Prop("x", Rec("b", Obj(<<Prop("up", Arr(Var("a"))), Prop("self", Arr(Var("b")))>>)))>>))),
                                     Body(Var("t"))>>)
     [] name = "decl-and-rec" -> one(<<Let("d", Obj(<<Prop("k", Arr(Var("d"))), Prop("r", Rec("z", Arr(Var("z"))))>>)), Body(Var("d"))>>)
@@ -184,9 +193,14 @@ RecInst(name) ==
                                   IF m = "g" THEN <<FRec>>
                                   ELSE <<Use("g"), Body(Obj(<<Prop("a", App(Var("f"), <<Prim("num")>>)), Prop("b", App(Var("f"), <<Prim("str")>>))>>))>>]]
     [] name = "ref-decl-twice" -> one(<<LetRef("@o", Obj(<<Prop("k", Arr(Var("@o")))>>)), Body(Obj(<<Prop("a", Var("@o")), Prop("b", Var("@o"))>>))>>)
+    [] name = "rel-self" -> one(<<Let("r", Rel(Uri(<<Seg("self")>>), <<Xfer("get", Var("r"))>>)), Res(Var("r"))>>)
+    [] name = "rel-rec" -> one(<<Res(Rec("x", Rel(Uri(<<Seg("self")>>), <<Xfer("get", Var("x"))>>)))>>)
+    [] name = "rel-domain" -> one(<<Let("r", Rel(Uri(<<Seg("self")>>), <<XferD("put", Var("r"), Op("::", <<Var("r"), C0>>))>>)), Res(Var("r"))>>)
+    [] name = "rel-mutual" -> one(<<Let("a", Rel(Uri(<<Seg("a")>>), <<Xfer("get", Var("b"))>>)), Let("b", Rel(Uri(<<Seg("b")>>), <<Xfer("get", Var("a"))>>)),
+                                   Res(Var("a")), Res(Var("b"))>>)
     [] name = "mutual" -> one(<<Let("a", Obj(<<Prop("b", Var("b"))>>)), Let("b", Obj(<<Prop("a", Var("a"))>>)), Body(Obj(<<Prop("x", Var("a")), Prop("y", Var("b"))>>))>>)
-RecInstNames == {"fn-once", "fn-twice", "fn-same-arg-twice", "fn-thrice", "top-twice", "nested-fn", "rec-in-rec", "decl-and-rec", "fn-of-rec",
-                 "same-binder-name", "imported-fn", "ref-decl-twice", "mutual"}
+RecInstNames == {"nested-fn-two-args", "nested-fn-twice-two-args", "fn-once", "fn-twice", "fn-same-arg-twice", "fn-thrice", "top-twice", "nested-fn", "rec-in-rec", "decl-and-rec", "fn-of-rec",
+                 "same-binder-name", "imported-fn", "ref-decl-twice", "mutual", "rel-self", "rel-rec", "rel-domain", "rel-mutual"}
 
 \* ---- Ranges, Uris, Xfers: the parts of a resource ---------------------------------------------------
 CntOf(st, md, body) ==
